@@ -44,6 +44,7 @@ class Decorator(object):
         if '__call__' not in ci.methods:
             raise AnalysisError('anchor vanished: %s.__call__' % ci.qual)
         self.call_fi = ci.methods['__call__']
+        self.updater = None
         self.state_consts, self.state_exprs, self.init_params = self._state_consts()
         self._resolve()
 
@@ -107,6 +108,10 @@ class Decorator(object):
             w = v
         elif v[0] == 'call' and libname(v[1]) in ('update_wrapper', 'wraps') and v[2] and v[2][0][0] == 'closure':
             w = v[2][0]
+        elif v[0] == 'call' and v[1][0] == 'lib' and len(v[2]) >= 2 and v[2][0][0] == 'closure' and v[2][1] == FN and self.package_function(v[1][1]) is not None:
+            # a helper of the package that finishes the wrapper (a replacement for functools.update_wrapper): judged by W-IFACE (rule_W_UPDATER)
+            w = v[2][0]
+            self.updater = self.package_function(v[1][1])
         if w is None:
             raise AnalysisError('%s.__call__: cannot identify the returned wrapper closure (%s)' % (self.qual, render(v)))
         self.wrapper_val = w
@@ -132,6 +137,18 @@ class Decorator(object):
         self.any_tokens = sorted(set(['KeyError', 'TypeError', GENERIC, BASEONLY]) | handler_tokens(self.wrapper_node))
         self.model.any_tokens = self.any_tokens
         self.model.bknames = self.bknames
+
+    def package_function(self, dotted):
+        """(module, FuncInfo) of a module-level function of the package named by a resolved dotted name, or None"""
+        parts = dotted.lstrip('.').split('.')
+        fname = parts[-1]
+        if fname in self.module.functions and (len(parts) == 1 or dotted.startswith(self.module.rel + '.')):
+            return (self.module, self.module.functions[fname])
+        for cand in reversed(parts[:-1]):
+            m2 = self.repo.modules.get(cand)
+            if m2 is not None and fname in m2.functions:
+                return (m2, m2.functions[fname])
+        return None
 
     def closure_node(self, v):
         if v is None or v[0] != 'closure':
